@@ -70,17 +70,19 @@ func vectorFromModel(harness, id string, model map[string]string, choices map[st
 	return v
 }
 
-func replayTestSource(l *Loaded) string {
+func replayTestSource(l *Loaded) string { return replayTestSourceFor(l.jen, "jen") }
+
+func replayTestSourceFor(pk *ssa.Package, pkgName string) string {
 	var names []string
-	for name, m := range l.jen.Members {
+	for name, m := range pk.Members {
 		if f, ok := m.(*ssa.Function); ok && strings.HasPrefix(name, "H_") && f.Signature.Params().Len() == 0 {
 			names = append(names, name)
 		}
 	}
 	sort.Strings(names)
 	var sb strings.Builder
-	sb.WriteString(`package jen
-
+	sb.WriteString("package " + pkgName + "\n")
+	sb.WriteString(`
 import (
 	"encoding/json"
 	"fmt"
@@ -162,6 +164,32 @@ func TestVerifReplay(t *testing.T) {
 
 // nativeRun executes the vectors natively; repeat>1 re-runs each vector (map-order findings).
 func nativeRun(l *Loaded, vectors []Vector, repeat int) (map[string][]*NativeRun, string, error) {
+	var jenV, genV []Vector
+	for _, v := range vectors {
+		if l.gen != nil && l.gen.Func(v.Harness) != nil {
+			genV = append(genV, v)
+		} else {
+			jenV = append(jenV, v)
+		}
+	}
+	res, out, err := nativeRunPkg(l, jenV, repeat, "jen", l.jen, l.overlay)
+	if err != nil {
+		return res, out, err
+	}
+	if len(genV) > 0 {
+		r2, o2, err2 := nativeRunPkg(l, genV, repeat, "gennames", l.gen, l.genOv)
+		if err2 != nil {
+			return res, out + o2, err2
+		}
+		for k, v := range r2 {
+			res[k] = v
+		}
+		out += o2
+	}
+	return res, out, nil
+}
+
+func nativeRunPkg(l *Loaded, vectors []Vector, repeat int, dir string, pk *ssa.Package, overlay map[string]string) (map[string][]*NativeRun, string, error) {
 	if len(vectors) == 0 {
 		return map[string][]*NativeRun{}, "", nil
 	}
@@ -171,12 +199,19 @@ func nativeRun(l *Loaded, vectors []Vector, repeat int) (map[string][]*NativeRun
 	}
 	defer os.RemoveAll(tmp)
 	testSrc := filepath.Join(tmp, "replay_test.go")
-	if err := os.WriteFile(testSrc, []byte(replayTestSource(l)), 0644); err != nil {
+	pkgName := "jen"
+	if dir != "jen" {
+		pkgName = "main"
+	}
+	if err := os.WriteFile(testSrc, []byte(replayTestSourceFor(pk, pkgName)), 0644); err != nil {
 		return nil, "", err
 	}
-	repl := map[string]string{filepath.Join(repoDir, "jen", "zz_verif_replay_test.go"): testSrc}
-	for virt, real := range l.overlay {
+	repl := map[string]string{filepath.Join(repoDir, dir, "zz_verif_replay_test.go"): testSrc}
+	for virt, real := range overlay {
 		repl[virt] = real
+	}
+	if dir != "jen" {
+		// the gennames package imports jen: its overlay must not contain jen harness files, and jen itself builds as is
 	}
 	ovb, _ := json.Marshal(map[string]interface{}{"Replace": repl})
 	ovFile := filepath.Join(tmp, "overlay.json")
@@ -185,7 +220,7 @@ func nativeRun(l *Loaded, vectors []Vector, repeat int) (map[string][]*NativeRun
 	vecFile := filepath.Join(tmp, "vectors.json")
 	os.WriteFile(vecFile, vb, 0644)
 	outFile := filepath.Join(tmp, "out.json")
-	cmd := exec.Command("go", "test", "-vet=off", "-count=1", "-overlay", ovFile, "-run", "^TestVerifReplay$", "-timeout", "20m", "./jen")
+	cmd := exec.Command("go", "test", "-vet=off", "-count=1", "-overlay", ovFile, "-run", "^TestVerifReplay$", "-timeout", "20m", "./"+dir)
 	cmd.Dir = repoDir
 	cmd.Env = append(os.Environ(), "GOFLAGS=-mod=mod", "GOPROXY=off", "GOSUMDB=off", "GOTOOLCHAIN=local",
 		"VERIF_VECTORS="+vecFile, "VERIF_OUT="+outFile, fmt.Sprintf("VERIF_REPEAT=%d", repeat))
